@@ -179,9 +179,9 @@ def parse_overlay(path):
             flush(); sect = ('end',)
         elif st.startswith('@loop'):
             flush(); sect = ('loop', int(st.split()[1]))
-        elif st.startswith('@before') or st.startswith('@after') or st.startswith('@replace') or st.startswith('@wrap') or st.startswith('@tail'):
+        elif st.startswith('@before') or st.startswith('@after') or st.startswith('@replace') or st.startswith('@wrap') or st.startswith('@tail') or st.startswith('@each'):
             flush()
-            m = re.match(r'@(before|after|wrap|tail)\s+"(.*)"(?:\s+#(\d+))?', st)
+            m = re.match(r'@(before|after|wrap|tail|each)\s+"(.*)"(?:\s+#(\d+))?', st)
             sect = (m.group(1), m.group(2), int(m.group(3) or 1))
         elif st.startswith('@hoist'):
             # T17 block hoisting, see weave_file. `@hoist "first" "last" name=vbl_x [pin=..]`; section text: `sig ..`, `call ..`,
@@ -826,6 +826,18 @@ class Weaver:
                     edits.append((p, q + 1, rep(f"|{mparams.group(1)}| -> {mparams.group(2)}", s[p:q + 1])))
                     edits.append((k, k, ins(f"{cid0}:annot[{nid}#{nth}]", sorted(tg), clauses.rstrip() + '\n{ ')))
                     edits.append((e, e, ins(f"{cid0}:annotend[{nid}#{nth}]", [], ' }')))
+                # @each "word": the clause is inserted before EVERY line of the body on which `word` occurs as a whole word
+                # (used for `return`: "no exit of this function skips X" - on the reference tree there may be no occurrence at
+                # all, which is not a lost anchor). An occurrence that is not at a statement start makes the woven ghost code
+                # unparsable, which is UNDECIDED by the usual rule.
+                for (needle, _nth), clause in spec.get('each', []):
+                    seen_ls = set()
+                    for k, m in enumerate(re.finditer(r'\b' + re.escape(needle) + r'\b', body), 1):
+                        if not code(f['open'] + m.start()): continue
+                        ls = s.rfind('\n', 0, f['open'] + m.start()) + 1
+                        if ls in seen_ls: continue
+                        seen_ls.add(ls)
+                        edits.append((ls, ls, ins(f"{cid0}:each[{needle}#{k}]", props, clause + '\n')))
                 for kind in ('before', 'after'):
                     for (needle, nth), clause in spec.get(kind, []):
                         idxs = [m.start() for m in re.finditer(re.escape(needle), body) if code(f['open'] + m.start())]
